@@ -1,37 +1,17 @@
-import Synphot.Driver.Json
-import Synphot.Core.Binning
-import Synphot.Core.PixRange
-
+import Synphot.Driver.Ops.Base
+-- one import + one line in `dispatchers` per ops module
 open Lean Synphot
 
 namespace Synphot.Driver
 
-def dispatch (op : String) (j : Json) : M Json := do
-  match op with
-  | "bin_edges" => do
-      let c ← fRats j "c"
-      pure (outcome jRats (binEdges c))
-  | "bin_widths" => do
-      let e ← fRats j "e"
-      pure (outcome jRats (binWidths e))
-  | "bin_centers" => do
-      let e ← fRats j "e"
-      pure (outcome jRats (binCenters e))
-  | "wave_range" => do
-      let bins ← fRats j "bins"
-      let cen ← fRat j "cen"
-      let isInt ← fBool j "npix_is_int"
-      let npix ← fInt j "npix"
-      let mode ← fStr j "mode"
-      let r : Except Err (Rat × Rat) := waveRangeTop bins cen isInt npix mode
-      pure (outcome (fun (p : Rat × Rat) => Json.arr #[jRat p.1, jRat p.2]) r)
-  | "pixel_range" => do
-      let bins ← fRats j "bins"
-      let w0 ← fRat j "w0"
-      let w1 ← fRat j "w1"
-      let mode ← fStr j "mode"
-      pure (outcome jRat (pixelRangeTop bins w0 w1 mode))
-  | _ => .error s!"unknown op {op}"
+def dispatchers : List (String → Json → Option (M Json)) := [
+  dispatchBase
+]
+
+def dispatch (op : String) (j : Json) : M Json :=
+  match dispatchers.findSome? (fun d => d op j) with
+  | some r => r
+  | none => .error s!"unknown op {op}"
 
 def handleLine (line : String) : String :=
   match Json.parse line with
